@@ -35,10 +35,14 @@ def parseScenario (op : String) : Option Scenario :=
   match op.splitOn "|" with
   | [hd, cmds] =>
     match tokens hd with
-    | ["pipe", dw, vw, buf] => do
+    | "pipe" :: dw :: vw :: buf :: rest => do
       let _ ← parseKV "dw=" dw
       let vw ← parseKV "vw=" vw
       let _ ← parseKV "buf=" buf
+      let _ ← (match rest with
+        | [] => some 0
+        | [mp] => parseKV "mp=" mp
+        | _ => none)
       let ks ← parseCmds (tokens cmds)
       pure { cfg := { validate := decide (vw > 0) }, kinds := ks }
     | _ => none
@@ -53,7 +57,7 @@ inductive Tok where
   /-- an item read from `Results()` -/
   | rr (blk : Nat) (seq : Nat)
   | leak (n : Nat)
-  /-- gate open rel drain_begin drain_ok drain_err settled unsettled -/
+  /-- gate open rel drain_begin drain_ok drain_err drain_nopoll settled unsettled stop_noop start_err -/
   | mark (s : String)
 deriving Repr
 
@@ -67,13 +71,17 @@ def mkEv (name : String) (x : Item) : Option Ev :=
 
 def parseTok (sc : Scenario) (t : String) : Option Tok :=
   match t.splitOn ":" with
+  | ["start"] => some (.ev0 .start)
   | ["stop_begin"] => some (.ev0 .cancel)
   | ["stop_ok"] => some (.ev0 .close)
   | [m] =>
-    if m ∈ ["gate", "open", "rel", "drain_begin", "drain_ok", "drain_err", "settled", "unsettled"] then
+    if m ∈ ["gate", "open", "rel", "drain_begin", "drain_ok", "drain_err", "drain_nopoll", "settled",
+            "unsettled", "stop_noop", "stop_hung", "start_err"] then
       some (.mark m) else none
   | ["pc", n] => do let n ← n.toNat?; pure (.ev0 (.pc n))
   | ["pcq", n] => do let n ← n.toNat?; pure (.ev0 (.pcq n))
+  | ["pa", n] => do let n ← n.toNat?; pure (.ev0 (.pa n))
+  | ["pb", n] => do let n ← n.toNat?; pure (.ev0 (.pb n))
   | ["leak", n] => do let n ← n.toNat?; pure (.leak n)
   | ["fail", _, _] => some (.ev0 .fail)
   | ["rr", b, s] => do let b ← b.toNat?; let s ← s.toNat?; pure (.rr b s)
